@@ -13,6 +13,8 @@ EXTENDS Num, Bytes
 
 HashIsSymbolic == TRUE
 Hash(b) == <<-1, Len(b)>> \o b
-ExpandPw(pw, n)     == NToBytes(NLit(IF pw = <<>> THEN 0 ELSE pw[1]), n)
-ExpandSeed(seed, n) == NToBytes(NLit(IF seed = <<>> THEN 0 ELSE seed[1]), n)
+(* the empty password / seed (used by the restore fingerprint) expand to fixed *)
+(* non-trivial numbers so that the fingerprint depends on the group            *)
+ExpandPw(pw, n)     == NToBytes(NLit(IF pw = <<>> THEN 5 ELSE pw[1]), n)
+ExpandSeed(seed, n) == NToBytes(NLit(IF seed = <<>> THEN 7 ELSE seed[1]), n)
 =============================================================================
